@@ -75,7 +75,7 @@ func (e *Engine) prescan() {
 	}
 	for _, n := range names {
 		fn := e.Funcs[n]
-		isInit := fn.Name() == "init" || (fn.Parent() != nil && fn.Parent().Name() == "init")
+		isInit := isInitFn(fn)
 		for _, b := range fn.Blocks {
 			for _, ins := range b.Instrs {
 				switch t := ins.(type) {
